@@ -1,5 +1,5 @@
 CONSTANTS Budget = 2 Sim = FALSE Start = "FILE"
-  Masked = {"todo_operand", "p_neg", "p_as_var"}
+  Masked = {"todo_operand", "p_neg"}
 SPECIFICATION Spec
 INVARIANTS Balanced EmitCase
 CHECK_DEADLOCK FALSE
